@@ -216,24 +216,22 @@ class Chan(Engine):
                 ctx.check(False, 'C10.errclass', 'Base58Check %s: library signalled %s, expected %s' % (what, got, ref[0]), lib=str(got[-1]), ref=ref[0], **det)
         return got
 
-    def _b58_interrupt(self, text, sel, ver, payload):
-        """(round u) An asynchronous exception - a signal handler raising KeyboardInterrupt, a cancellation - delivered
-        at the k-th source line the decoder executes (k is part of the plan; the line-event hook is the seam): the
-        injected exception, and nothing else, must come out - never a verdict about the string.  If the decoder
-        finishes before its k-th line, the right answer must."""
+    def _interrupted(self, module, k, call):
+        """(round u) Run call() with an asynchronous exception - what a signal handler raising KeyboardInterrupt, or a
+        cancellation, is to the code it lands in - delivered at the k-th source line executed inside `module`'s file
+        (k comes from the plan; the line-event hook is the seam).  Returns None when the seam is taken by the two-thread
+        scheduler, else (fired, ('ok', value) | ('raised', exception), injected exception)."""
         import sys
         import os as _os
-        ctx, B58 = self.ctx, self.B58
         if sys.gettrace() is not None or _os.environ.get('VERIF_PYMODE') == 'Threads':
-            return          # the line-event seam is taken by the two-thread scheduler
-        fn = B58.__file__
+            return None
+        fn = module.__file__
         if fn.endswith(('.pyc', '.pyo')):
             fn = fn[:-1]
 
         class _Interrupt(BaseException):
             pass
         inj = _Interrupt()
-        k = 1 + sel % (5 * len(text) + 16)
         state = {'n': 0, 'fired': False}
 
         def _local(frame, event, arg):
@@ -249,20 +247,34 @@ class Chan(Engine):
         sys.settrace(_global)
         try:
             try:
-                o = B58.CBase58Data(text)
-                out = ('ok', o.nVersion, bytes(o))
+                out = ('ok', call())
             except BaseException as e:
                 out = ('raised', e)
         finally:
             sys.settrace(None)
-        if state['fired']:
+        return state['fired'], out, inj
+
+    def _b58_interrupt(self, text, sel, ver, payload):
+        """The injected exception, and nothing else, must come out of decoding a VALID string - never a verdict about
+        the string.  If the decoder finishes before its k-th line, the right answer must."""
+        ctx, B58 = self.ctx, self.B58
+        k = 1 + sel % (5 * len(text) + 16)
+
+        def call():
+            o = B58.CBase58Data(text)
+            return (o.nVersion, bytes(o))
+        r = self._interrupted(B58, k, call)
+        if r is None:
+            return
+        fired, out, inj = r
+        if fired:
             ctx.fault('interrupt.at-line')
             ctx.check(out[0] == 'raised' and out[1] is inj, 'C10.accept-iff-ref',
                       'an asynchronous exception delivered at line event %d of decoding a VALID string came out as %s instead of itself'
                       % (k, ('the verdict ' + type(out[1]).__name__) if out[0] == 'raised' else 'a normal return'), fault='interrupt')
         else:
             ctx.probe('interrupt-after-return')
-            ctx.check(out == ('ok', ver, payload), 'C10.inverse', 'text form of (version %d, %d-byte payload) does not decode back to it under a line tracer: %r'
+            ctx.check(out == ('ok', (ver, payload)), 'C10.inverse', 'text form of (version %d, %d-byte payload) does not decode back to it under a line tracer: %r'
                       % (ver, len(payload), out[:2]), plen=len(payload))
 
     def _op_b58check(self, a):
@@ -629,6 +641,20 @@ class Chan(Engine):
         ctx.check(self._dec(hrp, want) == orig, 'C11.codec', 'fault-free channel: %r does not decode to the original version and program' % want, ver=ver, plen=len(prog))
         if ver == 0 and hrp in ('bc', 'tb', 'bcrt'):
             self._cbech32(hrp, want, orig)
+        # (round u) an asynchronous exception delivered inside the decoder comes out as itself, never as "invalid"
+        import zlib as _zlib
+        k_ = 1 + _zlib.crc32(want.encode('utf8', 'replace')) % (8 * len(want) + 40)
+        r_ = self._interrupted(SA, k_, lambda: self._dec(hrp, want))
+        if r_ is not None:
+            fired_, out_, inj_ = r_
+            if fired_:
+                ctx.fault('interrupt.at-line')
+                ctx.check(out_[0] == 'raised' and out_[1] is inj_, 'C11.codec',
+                          'an asynchronous exception delivered at line event %d of decoding the VALID address %r came out as %s instead of itself'
+                          % (k_, want, ('the exception ' + type(out_[1]).__name__) if out_[0] == 'raised' else 'the answer %r' % (out_[1],)), fault='interrupt')
+            else:
+                ctx.probe('interrupt-after-return')
+                ctx.check(out_ == ('ok', orig), 'C11.codec', 'fault-free channel under a line tracer: %r does not decode to the original version and program' % want, ver=ver, plen=len(prog))
         ctx.log(0, 0, 'bech32', '', 'hrp%d/v%d/p%d' % (len(hrp), min(ver, 1), len(prog)))
         text = want
         n = len(text)
